@@ -224,6 +224,7 @@ def run(chk):
             chk.violation('play', 'play:%d:%s' % (pv, k), {'case': case, 'expected': {x: exp[x] for x in diff if x != 'answers'}, 'observed': {x: obs[x] for x in diff if x != 'answers'}},
                           'protocol %d, %d server packets, threshold %s, %s arrival: %s differ%s' % (pv, len(h), thr, chunking, diff, detail or ': got %r, expected %r' % (obs.get(k), exp[k])))
     write_fault(chk)
+    shutdown_fault(chk)
     chk.sample('play', {'proto': runs[0][0], 'history': repr(runs[0][1])[:200]}, k=1)
     chk.assumptions += ['the networking thread is run synchronously by the simulated transport; the server closes / stays idle after its script',
                         'packet ids of the server frames are looked up through pyCraft\'s tables (checked by C06/C07)']
@@ -285,6 +286,43 @@ def write_fault(chk):
                     chk.violation('write-fault', 'write-fault:%d:%s:%s' % (pv, type(fault).__name__, fault.errno), {'case': case, 'expected': exp, 'observed': obs},
                                   'protocol %d: the server sent its disconnect packet and closed, the pending keep-alive answer failed with %s: %s is %r (expected %r)' % (
                                       pv, case['write_error'], k, obs[k], exp[k]))
+
+
+def shutdown_fault(chk):
+    """The server resets the connection right after its goodbye, so the shutdown() inside disconnect() fails (not connected /
+    reset): the sockets are closed all the same, the exit callback runs once, no error is reported."""
+    from minecraft.networking.connection import Connection
+    import errno
+    for pv in (47, 340, 757):
+        ids = proto.Ids(pv)
+        for err in (OSError(errno.ENOTCONN, 'Transport endpoint is not connected'), ConnectionResetError(errno.ECONNRESET, 'reset'), None):
+            frames = [proto.frame(ids.login_success, ids.b_login_success()), proto.frame(ids.keep_alive, ids.b_keep_alive(3)),
+                      proto.frame(ids.play_disconnect, proto.string('{"text":"bye"}'))]
+            net = sim.Net([sim.Server([b''.join(frames)], end='idle')]).install()
+            exits, excs = [], []
+            orig = sim.SimSocket.shutdown
+
+            def shutdown(self_, how, orig=orig):
+                if err is not None:
+                    raise err
+                return orig(self_, how)
+            sim.SimSocket.shutdown = shutdown
+            try:
+                conn = Connection('localhost', 25565, username='user', allowed_versions={pv}, handle_exit=lambda: exits.append(1), handle_exception=lambda e, i: excs.append(e))
+                conn.connect()
+                net.run_threads(conn)
+            finally:
+                sim.SimSocket.shutdown = orig
+                net.uninstall()
+            srv = net.servers[0]
+            case = {'proto': pv, 'shutdown_error': None if err is None else '%s(errno %d)' % (type(err).__name__, err.errno)}
+            chk.count('shutdown-fault', case, err is not None)
+            obs = {'socket_closed': bool(srv.sock.closed), 'stream_closed': bool(srv.stream.closed), 'exits': len(exits), 'errors': [exn_name(e) for e in excs]}
+            exp = {'socket_closed': True, 'stream_closed': True, 'exits': 1, 'errors': []}
+            if obs != exp:
+                k = next(k for k in exp if obs[k] != exp[k])
+                chk.violation('shutdown-fault', 'shutdown-fault:%d:%s' % (pv, case['shutdown_error']), {'case': case, 'expected': exp, 'observed': obs},
+                              'protocol %d: server disconnect packet, shutdown() fails with %s: %s is %r (expected %r)' % (pv, case['shutdown_error'], k, obs[k], exp[k]))
 
 
 def replay(chk, rp):
